@@ -53,6 +53,7 @@ func buildPrefix() *chainx.Prefix {
 
 type workload struct {
 	maxfile uint64 // BlockDBOpts.MaxDataFileSize (0 = one data file): every block in its own data file when small
+	keep    uint32 // BlockDBOpts.DataFilesKeep (0 = keep all data files)
 	name    string
 	blocks  func(p *chainx.Prefix) (names []string, blocks []*reftx.Block)
 	events  []string // block name | "idle" (Idle + wait for the snapshot) | "idle-nowait" | "close"
@@ -95,6 +96,13 @@ func workloads() []workload {
 			blocks: func(p *chainx.Prefix) ([]string, []*reftx.Block) {
 				return mk(p, [4]string{"A1", "P", "1", "M0"}, [4]string{"A2", "A1", "1", "M1"}, [4]string{"A3", "A2", "1", "M2"},
 					[4]string{"B2", "A1", "2", "M1"}, [4]string{"B3", "B2", "2", "M3"}, [4]string{"B4", "B3", "2", ""})
+			}},
+		// old data files are dropped while the chain grows (keep = 1): the running node and the start-up
+		// clean-up must agree on which files are still needed for the replay after a crash
+		{name: "W7-extend-across-data-files-keep-1", maxfile: 600, keep: 1, events: []string{"A1", "A2", "A3", "idle", "A4", "A5", "A6", "flush", "A7", "close"},
+			blocks: func(p *chainx.Prefix) ([]string, []*reftx.Block) {
+				return mk(p, [4]string{"A1", "P", "1", "M0"}, [4]string{"A2", "A1", "1", "M1"}, [4]string{"A3", "A2", "1", "M2"},
+					[4]string{"A4", "A3", "1", "M3"}, [4]string{"A5", "A4", "1", "M4"}, [4]string{"A6", "A5", "1", ""}, [4]string{"A7", "A6", "1", ""})
 			}},
 		{name: "W2b-snapshot-reorg-snapshot", events: []string{"A1", "A2", "idle", "B1", "B2", "B3", "idle", "close"},
 			blocks: func(p *chainx.Prefix) ([]string, []*reftx.Block) {
@@ -193,6 +201,7 @@ func recoverMain(dir string, blocksFile string, libDefault bool) {
 	o := &minichain.Opts{Params: params}
 	o.ChainOpts.DoNotRescan = !libDefault
 	o.BlockDBOpts.MaxDataFileSize = *maxFile
+	o.BlockDBOpts.DataFilesKeep = uint32(*keepFiles)
 	e := minichain.Open(dir, o)
 	ch := e.Ch
 	out.OpenTip, out.OpenUTXO = tipOf(ch), utxoOf(ch)
@@ -270,7 +279,14 @@ func recoverMain(dir string, blocksFile string, libDefault bool) {
 	out.ReTip, out.ReUTXO = tipOf(e2.Ch), utxoOf(e2.Ch)
 	// every block of the active chain must read back from the files (nothing is cached after a
 	// restart) as the bytes that hash to its name
-	for n := e2.Ch.LastBlock(); n != nil && n.Parent != nil && out.Audit == ""; n = n.Parent {
+	auditDepth := 1 << 30
+	if *keepFiles != 0 {
+		// with DataFilesKeep older data files legitimately disappear: only the newest blocks (within the
+		// newest keep+1 files for this workload's block sizes) must read back, and a rescan from genesis
+		// is not possible by design
+		auditDepth = 2
+	}
+	for n := e2.Ch.LastBlock(); n != nil && n.Parent != nil && out.Audit == "" && out.AuditN < auditDepth; n = n.Parent {
 		func() {
 			defer func() {
 				if r := recover(); r != nil {
@@ -289,8 +305,15 @@ func recoverMain(dir string, blocksFile string, libDefault bool) {
 	}
 	e2.Close()
 	// a third start that rebuilds the unspent set from the block files alone
+	if *keepFiles != 0 {
+		out.ScanTip, out.ScanUTXO = out.FinalTip, out.FinalUTXO
+		b, _ := json.Marshal(out)
+		fmt.Fprintln(ev.Out, string(b))
+		os.Exit(0)
+	}
 	o3 := &minichain.Opts{Params: params, Rescan: true}
 	o3.BlockDBOpts.MaxDataFileSize = *maxFile
+	o3.BlockDBOpts.DataFilesKeep = uint32(*keepFiles)
 	e3 := minichain.Open(dir, o3)
 	out.ScanTip, out.ScanUTXO = tipOf(e3.Ch), utxoOf(e3.Ch)
 	e3.Close()
@@ -304,6 +327,7 @@ var (
 	blocksArg  = flag.String("blocks", "", "internal: json file with the workload's blocks (hex)")
 	libDef     = flag.Bool("libdefault", false, "internal: open with the library default (DoNotRescan=false)")
 	maxFile    = flag.Uint64("maxfile", 0, "internal: BlockDBOpts.MaxDataFileSize of the workload")
+	keepFiles  = flag.Uint("keep", 0, "internal: BlockDBOpts.DataFilesKeep of the workload")
 	replayFile = flag.String("replay", "", "replay a recorded violation")
 )
 
@@ -359,6 +383,7 @@ func main() {
 		o := &minichain.Opts{Params: params}
 		o.ChainOpts.DoNotRescan = true
 		o.BlockDBOpts.MaxDataFileSize = w.maxfile
+		o.BlockDBOpts.DataFilesKeep = w.keep
 		e := minichain.Open(dir, o)
 		model := p.Model.Clone()
 		for _, evn := range w.events {
@@ -368,6 +393,8 @@ func main() {
 				waitSnapshot(e.Ch, dir)
 			case "idle-nowait":
 				e.Ch.Idle()
+			case "flush":
+				e.Ch.Blocks.Idle() // queued blocks to disk, no UTXO snapshot
 			case "close":
 				e.Close()
 			default:
@@ -442,7 +469,7 @@ func main() {
 							d = j.dir + "-v"
 							ev.CopyDir(j.dir, d)
 						}
-						extra := []string{"--blocks", bf, "--maxfile", fmt.Sprint(w.maxfile)}
+						extra := []string{"--blocks", bf, "--maxfile", fmt.Sprint(w.maxfile), "--keep", fmt.Sprint(w.keep)}
 						if variant == "libdefault" {
 							extra = append(extra, "--libdefault")
 						}
